@@ -69,6 +69,43 @@ def tr_cut_connections(fn):
             "  Ok {| s_pins := s_pins t; s_conn := cd; s_to := nremove1 target (s_to t) |}.\n")
 
 
+def tr_remove(fn_rc, fn_rp):
+    """Structure.remove_connections / remove_pin: the links to one neighbour are forgotten AND the pins that faced it are
+    dropped (used when that neighbour is removed for good)"""
+    t = [ast.unparse(x) for x in strip_doc(fn_rp.body)]
+    want = ["if (self, pin) in self.conn_dict:\n    self.conn_dict.pop((self, pin))\nelse:\n    raise Exception(f'Pin {pin} not in conn_dict')",
+            "if (self, pin) in self.pin_list:\n    self.pin_list.remove((self, pin))\n    self.pin_dic.pop((self, pin))\nelse:\n"
+            "    raise Exception(f'Pin {pin} not in conn_dict')"]
+    if t != want:
+        raise Unsupported("Structure.remove_pin changed: " + " ; ".join(t)[:300])
+    a = [x.arg for x in fn_rc.args.args]
+    if a != ["self", "target"]:
+        raise Unsupported(f"remove_connections arguments {a}")
+    t = [ast.unparse(x) for x in strip_doc(fn_rc.body)]
+    if not (len(t) == 4 and t[0].startswith("if target not in self.connected_to:\n    raise ")
+            and t[1] == "self.connected_to.remove(target)" and t[2] == "copy_dic = copy(self.conn_dict)"):
+        raise Unsupported("Structure.remove_connections changed: " + " ; ".join(t)[:300])
+    want = "for (s, pin), (t, tpin) in copy_dic.items():\n    if t is target:\n        self.remove_pin(pin)"
+    if t[3] != want:
+        raise Unsupported("Structure.remove_connections: loop changed: " + t[3][:300])
+    return ("Definition remove_pin_src (me : nat) (st : list spin * list (spin * spin) * bool) (pin : nat)\n"
+            "    : list spin * list (spin * spin) * bool :=\n"
+            "  let '(pins, cd, err) := st in\n"
+            "  if err then st else\n"
+            "  match dget spin_eqb (me, pin) cd with\n"
+            "  | None => (pins, cd, true)\n"
+            "  | Some _ => let cd' := dpop spin_eqb (me, pin) cd in\n"
+            "              if mem (me, pin) pins then (remove1 (me, pin) pins, cd', false) else (pins, cd', true)\n"
+            "  end.\n\n"
+            "Definition remove_connections_src (me : nat) (t : sstruct) (target : nat) : result sstruct :=\n"
+            "  if negb (nmem target (s_to t)) then Err ENotPresent else\n"
+            "  let '(pins, cd, err) :=\n"
+            "    fold_left (fun st it => if Nat.eqb (fst (snd it)) target then remove_pin_src me st (snd (fst it)) else st)\n"
+            "              (s_conn t) (s_pins t, s_conn t, false) in\n"
+            "  if err then Err ENoSuchPin else\n"
+            "  Ok {| s_pins := pins; s_conn := cd; s_to := nremove1 target (s_to t) |}.\n")
+
+
 def tr_add_structure(fn):
     body = strip_doc(fn.body)
     want = ("if structure not in self.structures:\n    self.structures.append(structure)\n"
@@ -127,6 +164,7 @@ def translate(repo: str) -> str:
            "Import ListNotations.", ""]
     out.append(tr_add_conn(find_fn(st, "Structure", "add_conn")))
     out.append(tr_cut_connections(find_fn(st, "Structure", "cut_connections")))
+    out.append(tr_remove(find_fn(st, "Structure", "remove_connections"), find_fn(st, "Structure", "remove_pin")))
     out.append(tr_add_structure(find_fn(ast.parse(srcs["sol.py"]), "Solver", "add_structure")))
     out.append(tr_maps_all_pins(find_fn(ast.parse(srcs["sol.py"]), "Solver", "maps_all_pins")))
     return "\n".join(out) + "\n"
